@@ -273,6 +273,31 @@ def r2_updates(ck, F):
             ck.ok('R2', 'reference_states.insert(header.temporal_reference, picture) on every successful path', where_of(b, ibb))
         else:
             ck.violation('R2', 'R2 : insert key', where_of(b, ibb), 'reference_states.insert is keyed by something other than the header TR, or is conditional')
+    # R7: cleanup_buffers() prunes the map down to the entries named by last_picture / reference_picture, so it must run after all three updates
+    ck.rule('R7', 'in the decode closure cleanup_buffers() is called once, after the assignment of last_picture, every assignment of reference_picture and the insertion '
+                  'of the new picture (it prunes the map to the entries those two fields name); no state write follows it')
+    cl = rr.find_calls(F, b, 'H263State::cleanup_buffers')
+    writes = []          # (bb, what)
+    for bb in sorted(g.reach):
+        for s_ in g.blocks[bb]['stmts']:
+            if s_['s'] != 'assign': continue
+            o = D.origin_place({'l': s_['lhs']['l'], 'proj': s_['lhs']['proj']})
+            while o[0] == 'ref': o = o[1]
+            if o[0] == 'param' and fields_of(o[2])[:1] == (0,) and len(fields_of(o[2])) >= 2 and fields_of(o[2])[1] in (iL, iR, iM):
+                writes.append((bb, {iL: 'last_picture', iR: 'reference_picture', iM: 'reference_states'}[fields_of(o[2])[1]]))
+    writes += [(bb, 'reference_states.insert') for bb, _ in ins]
+    if len(cl) != 1:
+        ck.violation('R7', 'R7 : cleanup_buffers calls', where_of(b), 'expected one cleanup_buffers() call in the decode closure, found %d' % len(cl))
+    else:
+        cb = cl[0][0]
+        after = [(bb, w) for bb, w in writes if bb in g.reachable_from([cb]) and bb != cb]
+        not_before = [(bb, w) for bb, w in writes if cb not in g.reachable_from([bb])]
+        kinds = {w for _, w in writes}
+        if after or not_before or not {'last_picture', 'reference_picture', 'reference_states.insert'} <= kinds:
+            ck.violation('R7', 'R7 : order of state updates and cleanup_buffers', where_of(b, cb), 'cleanup_buffers() does not come after all state updates: updates reachable after it %s, updates that cannot reach it %s (updates found: %s)' % (
+                sorted(set(w for _, w in after)), sorted(set(w for _, w in not_before)), sorted(kinds)))
+        else:
+            ck.ok('R7', 'cleanup_buffers() after last_picture, reference_picture (%d sites) and the insertion; nothing written after it' % len([1 for _, w in writes if w == 'reference_picture']), where_of(b, cb))
     return start
 
 
